@@ -206,7 +206,7 @@ Qed.
 
 (** * B. The state machine *)
 
-(** the borrow state: which calls the compiler admits next (the model answers
+(** the borrow state: which calls the compiler lets through next (the model answers
     [CrNoCompile] to all others) *)
 Inductive bstate := BClosed | BTop | BPc | BIm.
 Definition bstate_of (st : wstate) : bstate :=
@@ -225,7 +225,7 @@ Definition bnext (k : bstate) (c : wcall) : option bstate :=
   | BIm, ImDrop => Some BTop
   | _, _ => None
   end.
-(** a program the compiler admits *)
+(** a program that compiles *)
 Fixpoint borrow_ok (k : bstate) (calls : list wcall) : Prop :=
   match calls with
   | [] => True
@@ -606,7 +606,7 @@ Proof.
   intros m H. unfold gen_xml_full. apply gen_total. destruct m as [r e p i]. destruct r. exact H.
 Qed.
 
-(** Any program the compiler admits: if every call is acceptable in the state it is issued
+(** Any program that compiles: if every call is acceptable in the state it is issued
     in, every call returns Ok, on the paged device ([pw0]: empty, fault-free) as on the
     logical stream, and the flush of [Drop] succeeds.  No size hypothesis: the model's offsets
     are unbounded naturals and neither the crate nor the model checks them; that offsets, counts and the
@@ -630,6 +630,24 @@ Proof.
   - cbn [wapi_run wret wrun_spec] in H. inversion H. reflexivity.
   - destruct (run_cons _ _ _ _ _ _ _ _ _ H) as (l1 & s1 & r1 & rs1 & _ & H2 & ->). cbn [length]. f_equal.
     apply (IH _ _ _ _ _ H2).
+Qed.
+
+(** the same, with the abstract state the final state follows (used by Proofs/WapiCopy.v) *)
+Theorem api_accepts_abs : forall calls,
+  Forall call_wf calls -> borrow_ok BClosed calls ->
+  acceptable_calls G L ws_init ls_init calls ->
+  exists s st rs l,
+    wrun (writer_run fmt64 fmt32 version calls) pw0 = (s, Ok (st, rs)) /\
+    wrun_spec (writer_run fmt64 fmt32 version calls) ls_init = (l, Ok (st, rs)) /\
+    Forall res_ok rs /\ ws_inv st l /\ absr st (arun L a_init calls).
+Proof.
+  intros calls Hwf Hb Ha.
+  destruct (accept_run_abs G L gen_full_ok calls ws_init ls_init a_init ws_inv_init) as (l & st & rs & Hrun & Hok & Hinv & _ & Habs);
+    [intros H; discriminate H|exact Hwf|exact Hb|exact Ha|exact absr_init|].
+  destruct (wrun_image _ (writer_run fmt64 fmt32 version calls)) as (Hres & _ & _).
+  unfold writer_run in *. rewrite Hrun in Hres. cbn [snd] in Hres.
+  destruct (wrun (wapi_run G L ws_init calls) pw0) as [s r] eqn:E. cbn [fst snd] in *. subst r.
+  exists s, st, rs, l. auto.
 Qed.
 
 Theorem api_accepts_units : forall guid tops,
